@@ -31,13 +31,13 @@ type c06Unexp struct {
 	B string
 }
 type c06Dest struct {
-	A int
-	B string
-	N c06Inner
-	L []int
-	P *int
-	S []c06Inner
-	Q *c06Inner
+	A                                           int
+	B                                           string
+	N                                           c06Inner
+	L                                           []int
+	P                                           *int
+	S                                           []c06Inner
+	Q                                           *c06Inner
 	AVeryLongFieldNameThatExceedsThirtyTwoBytes int
 }
 
@@ -53,7 +53,7 @@ func c06Schema() *z.StructSchema {
 	})
 }
 
-const c06NVals = 34
+const c06NVals = 38
 
 // c06Value: the k-th entry of the dynamic-type catalogue
 func c06Value(k int) any {
@@ -132,6 +132,20 @@ func c06Value(k int) any {
 		return struct{}{}
 	case 32:
 		return [2]int{n, n}
+	case 34:
+		var inner *c06In
+		return &inner // non-nil pointer to a nil pointer
+	case 35:
+		var inner *c06In
+		pi := &inner
+		return &pi
+	case 36:
+		var m map[string]any
+		return &m
+	case 37:
+		var inner *int
+		var innerS *c06Inner
+		return map[string]any{"a": &inner, "p": &inner, "n": &innerS, "q": &innerS, "b": uint16(n), "l": []uint32{uint32(n)}}
 	case 33:
 		return map[string]any{"a": uint8(n), "b": []byte(s), "l": [1]int{n}, "p": uint64(n), "n": map[string]int{"x": n}}
 	}
